@@ -105,6 +105,7 @@ func Judge(cs Case, res Result) []Failure {
 	}
 
 	negd := map[int]bool{}
+	tried := map[int]bool{}     // namespaces whose Negotiate has been called on the current stream (failed calls too)
 	cache := map[int]cacheEnt{} // namespace -> entry of the current list
 	lists := 0                  // features lists seen on this session
 	listSt := uint8(0)
@@ -165,6 +166,7 @@ func Judge(cs Case, res Result) []Failure {
 		switch e.Kind {
 		case "Wh":
 			negd = map[int]bool{}
+			tried = map[int]bool{}
 			expectHdr = false
 		case "R":
 			if e.Res != "got" {
@@ -290,7 +292,12 @@ func Judge(cs Case, res Result) []Failure {
 			}
 			if negd[b.NS] {
 				add("C01", "once", "twice-on-one-stream", "%s: namespace negotiated twice without a stream restart", e.String(cfg))
+			} else if tried[b.NS] {
+				// a Negotiate that failed ends the negotiation; calling it again on the same stream
+				// is a second negotiation of the feature all the same
+				add("C01", "once", "retried-after-error", "%s: Negotiate called again on the same stream after it had failed", e.String(cfg))
 			}
+			tried[b.NS] = true
 			if ent, ok := cache[b.NS]; ok && ent.idx == e.F && ent.req && !server && !forced {
 				for ns, o := range cache {
 					ob := cfg[o.idx]
